@@ -359,7 +359,7 @@ func (c *Ctx) ruleOwnPrep() {
 		if len(r.Results) < 1 {
 			continue
 		}
-		if isNilConst(r.Results[0]) {
+		if isNilConst(resultOf(r, 0)) {
 			continue
 		}
 		n++
@@ -404,12 +404,12 @@ func (c *Ctx) ruleOwnPrep() {
 				c.ob("R-OWN/prep", fmt.Sprintf("prepForMutation:return-other#%d", ord), r.Pos(), false, "unrecognised returned node: "+describeVal(v))
 			}
 		}
-		check(r.Results[0], r.Block(), map[ssa.Value]bool{})
+		check(resultOf(r, 0), r.Block(), map[ssa.Value]bool{})
 		// SetDirty dominates the return
 		dirty := false
 		eachInstr(f, func(_ *ssa.BasicBlock, _ int, in ssa.Instruction) {
 			if call, ok := in.(*ssa.Call); ok {
-				if cal := call.Call.StaticCallee(); cal != nil && cal.Name() == "SetDirty" && call.Call.Args[0] == r.Results[0] && instrDominates(call, r) {
+				if cal := call.Call.StaticCallee(); cal != nil && cal.Name() == "SetDirty" && call.Call.Args[0] == resultOf(r, 0) && instrDominates(call, r) {
 					dirty = true
 				}
 			}
